@@ -122,7 +122,8 @@ def typestate(chk, db, prefix=''):
     for q in pick_class(db, 'nop::Result', lambda q: nontrivial(q) and 'void>' not in q and (q.startswith('nop::Result<Err,') or q.startswith('nop::Result<Err2,'))):
         en = q[len('nop::Result<'):].split(',')[0]
         targets.append((q, ResultAdapter(db.enums.get(en)), 'Result<%s,' % en + ('std::string' if 'basic_string' in q else 'T') + '>'))
-    for q in pick_class(db, 'nop::Optional', lambda q: nontrivial(q) and '::' not in q.split('>')[-1])[:2]:
+    STR = 'std::basic_string<char, std::char_traits<char>, std::allocator<char>>'
+    for q in pick_class(db, 'nop::Optional', lambda q: q in ('nop::Optional<%s>' % STR, 'nop::Optional<probe::NonTrivial>'))[:2]:
         targets.append((q, OptionalAdapter(), 'Optional<' + ('std::string' if 'basic_string' in q else 'NonTrivial') + '>'))
     # the trivially-destructible State/Storage specialisations of Optional, Result over a scalar, and Result<E, void>
     for q in pick_class(db, 'nop::Optional', lambda q: q == 'nop::Optional<int>'):
@@ -215,8 +216,9 @@ def entries(chk, db, rule):
                     bad.append('clear() has effects')
                 if f['n'] == 'operator bool':
                     e = ir.strip_all_casts(rets[0]['e']) if len(rets) == 1 else {}
-                    if not (e.get('k') == 'un' and e['op'] == '!' and ir.callee_name(ir.strip_all_casts(e['e'])) == 'empty'):
-                        bad.append('operator bool is not !empty()')
+                    neg_empty = e.get('k') == 'un' and e['op'] == '!' and ir.callee_name(ir.strip_all_casts(e['e'])) == 'empty'
+                    if not (neg_empty or ir.const_of(e) == 0):
+                        bad.append('operator bool is neither !empty() nor false')
             if not {'empty', 'clear'} <= {f['n'] for f in own} and key in seen:
                 continue
             if key not in seen or bad:
